@@ -165,6 +165,9 @@ class Executor:
         self.solver_s = 0.0
         self.blocks_executed = 0
         self.sym_counter = 0
+        self.havoc_unknown_calls = False   # slices: unmodelled callees return under-constrained values
+        self.havoc_calls = 0
+        self.inline_in_slices = lambda fn: False
         self.prune_unreachable = False     # slices over havoc'd state set this: `unreachable` = invalid state, not a panic
         self.pruned = 0
         self._impl_index = None
@@ -981,7 +984,18 @@ class Executor:
                 return None
         # 3. crate code
         target = self.resolve_callee(fr, func_s, t)
+        if target is not None and self.havoc_unknown_calls and not self.inline_in_slices(target[0]):
+            target = None
         if target is None:
+            if self.havoc_unknown_calls:
+                # arithmetic slice: the callee's result is under-constrained
+                dty = self.subst(fr, fr.fn.decls.get(t.a["dest"].local, "()")) if not t.a["dest"].proj else "?"
+                self.havoc_calls += 1
+                if t.a["target"] is None:
+                    raise Infeasible()      # diverging unknown call: path ends
+                hv = Havoc("ret", f"ret_{func_s.split('::')[-1][:24]}").field(self.havoc_calls, dty) if dty != "()" else UNIT
+                self.finish_call(st, fr, t, hv)
+                return None
             raise Unsupported(f"call to unmodelled function {func_s}   (in {fr.name}:{fr.block})")
         fn, tymap = target
         fn.parse()
